@@ -4,8 +4,8 @@ From Coq Require Import Lia.
 Lemma mem_true k s : mem k s = true <-> In k s.
 Proof.
   unfold mem. rewrite existsb_exists. split.
-  - intros (x & Hin & He). apply Nat.eqb_eq in He. subst. exact Hin.
-  - intros H. exists k. split; [exact H|apply Nat.eqb_refl].
+  - intros (x & Hin & He). apply N.eqb_eq in He. subst. exact Hin.
+  - intros H. exists k. split; [exact H|apply N.eqb_refl].
 Qed.
 
 Lemma mem_false k s : mem k s = false <-> ~ In k s.
@@ -13,16 +13,16 @@ Proof. rewrite <- mem_true. destruct (mem k s); split; congruence. Qed.
 
 Section Cache.
   Variable ans : line -> line.
-  Variable F : nat -> option line.     (* first line of each key in the whole input *)
+  Variable F : N -> option line.     (* first line of each key in the whole input *)
 
   (* in the rest of the input, the first line of a key not seen yet is that key's global first line *)
-  Fixpoint fresh_ok (ls : list (nat * line)) (seen : list nat) : Prop :=
+  Fixpoint fresh_ok (ls : list (N * line)) (seen : list N) : Prop :=
     match ls with
     | [] => True
     | (k, l) :: r => (mem k seen = false -> F k = Some l) /\ (mem k seen = true -> F k <> None) /\ fresh_ok r (if mem k seen then seen else k :: seen)
     end.
 
-  Definition table_ok (table : list (nat * line)) (seen : list nat) : Prop :=
+  Definition table_ok (table : list (N * line)) (seen : list N) : Prop :=
     forall k, (mem k seen = true -> exists l, F k = Some l /\ lookup k table = Some (ans l)) /\
               (mem k seen = false -> lookup k table = None).
 
@@ -40,18 +40,18 @@ Section Cache.
     - simpl. destruct (Ht k) as [_ H2]. rewrite (H2 Em). rewrite (Hnew eq_refl). simpl. f_equal.
       apply IH; [exact Hrest|].
       intros k'. split.
-      + intros Hm. simpl in Hm. destruct (Nat.eqb k' k) eqn:Ek.
-        * apply Nat.eqb_eq in Ek. subst k'. exists l. split; [apply Hnew; reflexivity|].
-          simpl. rewrite Nat.eqb_refl. reflexivity.
+      + intros Hm. simpl in Hm. destruct (N.eqb k' k) eqn:Ek.
+        * apply N.eqb_eq in Ek. subst k'. exists l. split; [apply Hnew; reflexivity|].
+          simpl. rewrite N.eqb_refl. reflexivity.
         * simpl in Hm. destruct (Ht k') as [H1 _]. destruct (H1 Hm) as (l0 & HF & Hl).
           exists l0. split; [exact HF|]. simpl. rewrite Ek. exact Hl.
-      + intros Hm. simpl in Hm. destruct (Nat.eqb k' k) eqn:Ek; [discriminate|].
+      + intros Hm. simpl in Hm. destruct (N.eqb k' k) eqn:Ek; [discriminate|].
         simpl in Hm. simpl. rewrite Ek. destruct (Ht k') as [_ H2']. apply H2'. exact Hm.
   Qed.
 End Cache.
 
 (* the global first-line function satisfies fresh_ok from the start *)
-Lemma fresh_ok_first_line_gen (pre ls : list (nat * line)) (seen : list nat) :
+Lemma fresh_ok_first_line_gen (pre ls : list (N * line)) (seen : list N) :
   (forall k, mem k seen = true <-> first_line k pre <> None) ->
   fresh_ok (fun k => first_line k (pre ++ ls)) ls seen.
 Proof.
@@ -62,20 +62,20 @@ Proof.
     { destruct (first_line k pre) eqn:E; [|reflexivity]. exfalso.
       assert (mem k seen = true) by (apply Hs; congruence). congruence. }
     clear Hs IH. induction pre as [|[k' l'] pre IHp]; simpl in *.
-    + rewrite Nat.eqb_refl. reflexivity.
-    + destruct (Nat.eqb k k'); [discriminate|]. apply IHp. exact Hn.
+    + rewrite N.eqb_refl. reflexivity.
+    + destruct (N.eqb k k'); [discriminate|]. apply IHp. exact Hn.
   - intros Hm. apply Hs in Hm. clear Hs IH.
     induction pre as [|[k' l'] pre IHp]; simpl in *; [exfalso; apply Hm; reflexivity|].
-    destruct (Nat.eqb k k'); [discriminate|]. apply IHp. exact Hm.
+    destruct (N.eqb k k'); [discriminate|]. apply IHp. exact Hm.
   - replace (pre ++ (k, l) :: r) with ((pre ++ [(k, l)]) ++ r) by (rewrite <- app_assoc; reflexivity).
     apply IH. intros k0.
-    assert (Hfl : first_line k0 (pre ++ [(k, l)]) = match first_line k0 pre with Some x => Some x | None => if Nat.eqb k0 k then Some l else None end).
-    { clear. induction pre as [|[k' l'] pre IHp]; simpl; [reflexivity|]. destruct (Nat.eqb k0 k'); [reflexivity|exact IHp]. }
+    assert (Hfl : first_line k0 (pre ++ [(k, l)]) = match first_line k0 pre with Some x => Some x | None => if N.eqb k0 k then Some l else None end).
+    { clear. induction pre as [|[k' l'] pre IHp]; simpl; [reflexivity|]. destruct (N.eqb k0 k'); [reflexivity|exact IHp]. }
     rewrite Hfl. destruct (mem k seen) eqn:Em.
     + rewrite Hs. destruct (first_line k0 pre) eqn:E; [split; congruence|].
-      destruct (Nat.eqb k0 k) eqn:Ek; [|split; congruence].
-      apply Nat.eqb_eq in Ek. subst k0. apply Hs in Em. congruence.
-    + simpl. destruct (Nat.eqb k0 k) eqn:Ek.
+      destruct (N.eqb k0 k) eqn:Ek; [|split; congruence].
+      apply N.eqb_eq in Ek. subst k0. apply Hs in Em. congruence.
+    + simpl. destruct (N.eqb k0 k) eqn:Ek.
       * simpl. destruct (first_line k0 pre); split; intros; congruence.
       * simpl. rewrite Hs. destruct (first_line k0 pre); split; congruence.
 Qed.
@@ -94,8 +94,8 @@ Qed.
 Lemma first_line_in ls : forall kl, In kl ls -> first_line (fst kl) ls <> None.
 Proof.
   induction ls as [|[k l] r IH]; intros [k0 l0] Hin; simpl in *; [contradiction|].
-  destruct (Nat.eqb k0 k) eqn:E; [discriminate|].
-  destruct Hin as [Heq|Hin]; [inversion Heq; subst; rewrite Nat.eqb_refl in E; discriminate|].
+  destruct (N.eqb k0 k) eqn:E; [discriminate|].
+  destruct Hin as [Heq|Hin]; [inversion Heq; subst; rewrite N.eqb_refl in E; discriminate|].
   exact (IH _ Hin).
 Qed.
 
@@ -106,9 +106,179 @@ Proof.
   pose proof (first_line_in ls kl Hin). destruct (first_line (fst kl) ls); [discriminate|congruence].
 Qed.
 
-(* the child receives exactly the first-occurrence lines, each once, in input order *)
-Theorem cache_child_input ls : sent ls [] = first_occurrences ls [].
-Proof. generalize (@nil nat). induction ls as [|[k l] r IH]; intros s; simpl; [reflexivity|]. destruct (mem k s); rewrite IH; reflexivity. Qed.
+(* ---- the child's input against an independent specification (audit H2) ---- *)
+Lemma sent_pairs_snd ls : forall seen, sent ls seen = map snd (sent_pairs ls seen).
+Proof. induction ls as [|[k l] r IH]; intros seen; simpl; [reflexivity|]. destruct (mem k seen); simpl; rewrite IH; reflexivity. Qed.
+
+Lemma feeder_flags ls : forall seen, map fst (feeder ls seen) = map fst ls.
+Proof. induction ls as [|[k l] r IH]; intros seen; simpl; [reflexivity|]. destruct (mem k seen); simpl; rewrite IH; reflexivity. Qed.
+
+Lemma Subseq_map {A B} (f : A -> B) s l : Subseq s l -> Subseq (map f s) (map f l).
+Proof. induction 1; simpl; constructor; assumption. Qed.
+
+Lemma Subseq_In {A} (s l : list A) x : Subseq s l -> In x s -> In x l.
+Proof. induction 1 as [|y s l H IH|y s l H IH]; simpl; intros Hin; auto. destruct Hin as [->|Hin]; auto. Qed.
+
+Lemma sent_pairs_subseq ls : forall seen, Subseq (sent_pairs ls seen) ls.
+Proof.
+  induction ls as [|[k l] r IH]; intros seen; simpl; [constructor|].
+  destruct (mem k seen); [apply SubSkip|apply SubTake]; apply IH.
+Qed.
+
+Lemma sent_pairs_fresh ls : forall seen k, In k (map fst (sent_pairs ls seen)) -> ~ In k seen.
+Proof.
+  induction ls as [|[k0 l] r IH]; intros seen k Hin; simpl in Hin; [contradiction|].
+  destruct (mem k0 seen) eqn:Em.
+  - exact (IH _ _ Hin).
+  - simpl in Hin. destruct Hin as [<-|Hin]; [apply mem_false; exact Em|].
+    intros Hs. apply (IH _ _ Hin). right. exact Hs.
+Qed.
+
+Lemma sent_pairs_nodup ls : forall seen, NoDup (map fst (sent_pairs ls seen)).
+Proof.
+  induction ls as [|[k l] r IH]; intros seen; simpl; [constructor|].
+  destruct (mem k seen); [apply IH|]. simpl. constructor; [|apply IH].
+  intros Hin. apply (sent_pairs_fresh _ _ _ Hin). left. reflexivity.
+Qed.
+
+Lemma sent_pairs_covers ls : forall seen k, In k (map fst ls) -> In k seen \/ In k (map fst (sent_pairs ls seen)).
+Proof.
+  induction ls as [|[k0 l] r IH]; intros seen k Hin; simpl in Hin; [contradiction|]. simpl.
+  destruct (mem k0 seen) eqn:Em.
+  - destruct Hin as [<-|Hin]; [left; apply mem_true; exact Em|apply IH; exact Hin].
+  - destruct Hin as [<-|Hin]; [right; left; reflexivity|].
+    destruct (IH (k0 :: seen) k Hin) as [[<-|H]|H]; [right; left; reflexivity|left; exact H|right; right; exact H].
+Qed.
+
+Lemma mem_ext s1 s2 : (forall k, In k s1 <-> In k s2) -> forall k, mem k s1 = mem k s2.
+Proof.
+  intros H k. destruct (mem k s1) eqn:E1, (mem k s2) eqn:E2; auto.
+  - apply mem_true in E1. apply H in E1. apply mem_true in E1. congruence.
+  - apply mem_true in E2. apply H in E2. apply mem_true in E2. congruence.
+Qed.
+
+Lemma sent_pairs_ext ls : forall s1 s2, (forall k, In k s1 <-> In k s2) -> sent_pairs ls s1 = sent_pairs ls s2.
+Proof.
+  induction ls as [|[k l] r IH]; intros s1 s2 H; simpl; [reflexivity|].
+  rewrite (mem_ext s1 s2 H k). destruct (mem k s2); [apply IH; exact H|]. f_equal. apply IH.
+  intros k0. simpl. rewrite H. reflexivity.
+Qed.
+
+Lemma sent_pairs_app a : forall b seen,
+  sent_pairs (a ++ b) seen = sent_pairs a seen ++ sent_pairs b (map fst a ++ seen).
+Proof.
+  induction a as [|[k l] r IH]; intros b seen; simpl; [reflexivity|].
+  destruct (mem k seen) eqn:Em.
+  - rewrite IH. f_equal. apply sent_pairs_ext. intros k0. apply mem_true in Em. simpl. rewrite !in_app_iff.
+    split; [tauto|]. intros [<-|[H|H]]; tauto.
+  - simpl. rewrite IH. f_equal. f_equal. apply sent_pairs_ext. intros k0. simpl. rewrite !in_app_iff. simpl. tauto.
+Qed.
+
+(* position-wise: the line at ANY position is forwarded iff no earlier line has its key *)
+Theorem sent_pairs_position pre k l post :
+  sent_pairs (pre ++ (k, l) :: post) [] =
+  sent_pairs pre [] ++ (if mem k (map fst pre) then [] else [(k, l)]) ++ sent_pairs post (map fst (pre ++ [(k, l)])).
+Proof.
+  rewrite sent_pairs_app. f_equal. rewrite app_nil_r. simpl.
+  destruct (mem k (map fst pre)) eqn:E; simpl; [|f_equal]; apply sent_pairs_ext; intros k0; rewrite map_app, in_app_iff; simpl.
+  - apply mem_true in E. split; [tauto|]. intros [H|[<-|[]]]; assumption.
+  - tauto.
+Qed.
+
+Lemma sent_pairs_first_line ls : forall seen k l, In (k, l) (sent_pairs ls seen) -> first_line k ls = Some l.
+Proof.
+  induction ls as [|[k0 l0] r IH]; intros seen k l Hin; simpl in Hin; [contradiction|]. simpl.
+  assert (Hk : In k (map fst (sent_pairs ((k0, l0) :: r) seen))).
+  { simpl. change k with (fst (k, l)). apply in_map. exact Hin. }
+  destruct (mem k0 seen) eqn:Em.
+  - destruct (N.eqb k k0) eqn:E.
+    + apply N.eqb_eq in E. subst k0. exfalso. apply (sent_pairs_fresh _ _ _ Hk). apply mem_true. exact Em.
+    + exact (IH _ _ _ Hin).
+  - destruct Hin as [Heq|Hin]; [inversion Heq; subst; rewrite N.eqb_refl; reflexivity|].
+    destruct (N.eqb k k0) eqn:E; [|exact (IH _ _ _ Hin)].
+    apply N.eqb_eq in E. subst k0. exfalso.
+    assert (Hk2 : In k (map fst (sent_pairs r (k :: seen)))) by (change k with (fst (k, l)); apply in_map; exact Hin).
+    apply (sent_pairs_fresh _ _ _ Hk2). left. reflexivity.
+Qed.
+
+(* ---- any one-line-per-line child, state allowed (audit M6) ---- *)
+Lemma lookup_mem (table : list (N * line)) k : mem k (map fst table) = true <-> lookup k table <> None.
+Proof.
+  induction table as [|[k0 a] t IH]; simpl; [split; [discriminate|congruence]|].
+  destruct (N.eqb k k0); simpl; [split; [discriminate|reflexivity]|exact IH].
+Qed.
+
+Lemma collector_gen_spec ls : forall table answers,
+  length answers = length (sent_pairs ls (map fst table)) ->
+  collector (map fst (feeder ls (map fst table))) table answers =
+  map (fun kl => match lookup (fst kl) table with
+                 | Some a => Some a
+                 | None => nth_error answers (index_of (fst kl) (map fst (sent_pairs ls (map fst table))))
+                 end) ls.
+Proof.
+  induction ls as [|[k l] r IH]; intros table answers Hlen; [reflexivity|].
+  cbn [feeder sent_pairs] in *. destruct (mem k (map fst table)) eqn:Em.
+  - cbn [map fst collector]. apply lookup_mem in Em. destruct (lookup k table) as [a|] eqn:El; [|congruence].
+    f_equal. apply IH. exact Hlen.
+  - cbn [map fst collector].
+    assert (El : lookup k table = None).
+    { destruct (lookup k table) eqn:E; [|reflexivity]. assert (mem k (map fst table) = true) by (apply lookup_mem; congruence). congruence. }
+    rewrite El. destruct answers as [|a rest]; [discriminate Hlen|].
+    cbn [index_of]. rewrite N.eqb_refl. cbn [nth_error]. f_equal.
+    specialize (IH ((k, a) :: table) rest). cbn [map fst] in IH. rewrite IH by (simpl in Hlen; injection Hlen; auto).
+    apply map_ext. intros [k' l']. cbn [fst lookup index_of]. destruct (N.eqb k' k) eqn:Ek.
+    + apply N.eqb_eq in Ek. subst k'. rewrite El. reflexivity.
+    + destruct (lookup k' table); reflexivity.
+Qed.
+
+Theorem cache_run_gen_spec child ls :
+  length (child (sent ls [])) = length (sent ls []) ->
+  cache_run_gen child ls = cache_spec_gen child ls.
+Proof.
+  intros Hlen. unfold cache_run_gen, cache_spec_gen.
+  pose proof (collector_gen_spec ls [] (child (sent ls []))) as H. cbn [map lookup] in H. apply H.
+  rewrite Hlen, sent_pairs_snd, map_length. reflexivity.
+Qed.
+
+Lemma index_of_lt k ks : In k ks -> index_of k ks < length ks.
+Proof.
+  induction ks as [|k0 r IH]; simpl; [contradiction|]. intros H. destruct (N.eqb k k0) eqn:E; [lia|].
+  destruct H as [->|H]; [rewrite N.eqb_refl in E; discriminate|]. specialize (IH H). lia.
+Qed.
+
+Theorem cache_run_gen_total child ls :
+  length (child (sent ls [])) = length (sent ls []) ->
+  Forall (fun o => o <> None) (cache_run_gen child ls).
+Proof.
+  intros Hlen. rewrite cache_run_gen_spec by exact Hlen. unfold cache_spec_gen. apply Forall_forall. intros o Ho.
+  apply in_map_iff in Ho. destruct Ho as ([k l] & <- & Hin). cbn [fst].
+  apply nth_error_Some. rewrite Hlen, sent_pairs_snd, map_length, <- (map_length fst).
+  apply index_of_lt. destruct (sent_pairs_covers ls [] k) as [[]|H]; [|exact H].
+  change k with (fst (k, l)). apply in_map. exact Hin.
+Qed.
+
+(* the answer line used for key k is the one the child wrote for the FIRST line with key k *)
+Lemma nth_index_of (sp : list (N * line)) k : In k (map fst sp) ->
+  exists l, nth_error sp (index_of k (map fst sp)) = Some (k, l).
+Proof.
+  induction sp as [|[k0 l0] r IH]; simpl; [contradiction|]. intros H.
+  destruct (N.eqb k k0) eqn:E.
+  - apply N.eqb_eq in E. subst k0. exists l0. reflexivity.
+  - destruct H as [->|H]; [rewrite N.eqb_refl in E; discriminate|]. exact (IH H).
+Qed.
+
+Theorem sent_at_key_index ls k : In k (map fst ls) ->
+  nth_error (sent ls []) (index_of k (map fst (sent_pairs ls []))) = first_line k ls.
+Proof.
+  intros Hin. destruct (sent_pairs_covers ls [] k Hin) as [[]|H].
+  destruct (nth_index_of _ _ H) as (l & Hn).
+  rewrite sent_pairs_snd. erewrite map_nth_error by exact Hn. cbn [snd].
+  symmetry. apply (sent_pairs_first_line ls []). eapply nth_error_In. exact Hn.
+Qed.
+
+(* the stateless child is the special case child = map ans *)
+Lemma cache_run_gen_map ans ls : cache_run_gen (map ans) ls = cache_run ans ls.
+Proof. reflexivity. Qed.
 
 (* Output() reads a child line exactly for the entries whose line Input() forwarded: the collector's
    `need` equals the feeder's `lines` (the bookkeeping of the wrapper transition system) *)
@@ -128,9 +298,9 @@ Proof.
   intros Hk. rewrite cache_run_spec. unfold cache_spec. apply map_ext_in. intros [k l] Hin. simpl.
   assert (G : forall pre, (forall k' l', In (k', l') pre -> In (k', l') ls) -> In (k, l) pre -> first_line k pre = Some l).
   { induction pre as [|[k' l'] pre IHp]; intros Hsub Hi; [contradiction|]. simpl.
-    destruct (Nat.eqb k k') eqn:E.
-    - apply Nat.eqb_eq in E. subst k'. f_equal. symmetry. apply (Hk k l k l'); auto. apply Hsub. left. reflexivity.
-    - destruct Hi as [Heq|Hi]; [inversion Heq; subst; rewrite Nat.eqb_refl in E; discriminate|].
+    destruct (N.eqb k k') eqn:E.
+    - apply N.eqb_eq in E. subst k'. f_equal. symmetry. apply (Hk k l k l'); auto. apply Hsub. left. reflexivity.
+    - destruct Hi as [Heq|Hi]; [inversion Heq; subst; rewrite N.eqb_refl in E; discriminate|].
       apply IHp; auto. intros; apply Hsub; right; assumption. }
   rewrite (G ls); auto.
 Qed.
